@@ -220,3 +220,35 @@ func c08workspaceRoot(root string) {
 
 func VerifRun_C06multi() { c06multiRun(common.CRSReference, "references", "C06") }
 func VerifRun_C11multi() { c06multiRun(common.CRSRename, "rename", "C11") }
+
+// go-to-definition across files (C05): same workspaces, every occurrence, both cursor ends
+func VerifRun_C05multi() {
+	root := verifVFSRoot()
+	c08workspaceRoot(root)
+	ti := verifConcretize(verifRange("template", 0, len(c06multi)-1))
+	t := c06multi[ti]
+	files := make([]string, len(t))
+	srcs := make([][]byte, len(t))
+	var names [10]byte
+	var have [10]bool
+	for i := range t {
+		files[i] = root + "/" + string([]byte{'a' + byte(i)}) + ".lua"
+		b := []byte(t[i])
+		for j, c := range b {
+			if c >= 1 && c <= 9 {
+				if !have[c] {
+					names[c] = verifByteIn("n"+string([]byte{'0' + c}), "xy")
+					have[c] = true
+				}
+				b[j] = names[c]
+			}
+		}
+		srcs[i] = b
+	}
+	p, fs := vpProject(files, srcs)
+	r := rbBind(fs)
+	for oi := range r.occs {
+		c05check(p, r, files, srcs, oi)
+	}
+	verifReach("done")
+}
